@@ -397,12 +397,16 @@ func (in *Interp) selectOp(th *Thread, fr *Frame, ins *ssa.Select) {
 		if x.ch.Closed {
 			in.goPanic(th, "send on closed channel", "send on closed channel")
 		}
-		x.ch.items = append(x.ch.items, &chanItem{v: copyVal(x.v)})
+		it := &chanItem{v: copyVal(x.v)}
+		in.hbRelease(th, it)
+		x.ch.items = append(x.ch.items, it)
 		result(x.idx, false, nil)
 	} else {
 		if v, ok := x.ch.take(); ok {
+			in.hbAcquire(th, x.ch.lastTaken) // a receive in a select synchronises with the send like a plain receive
 			result(x.idx, true, v)
 		} else {
+			in.hbAcquire(th, x.ch) // closed channel: synchronises with the close
 			result(x.idx, false, nil)
 		}
 	}
@@ -594,7 +598,11 @@ func (in *Interp) access(k slotKey, write bool) {
 		if k.m != nil {
 			what = "map"
 		}
-		panic(pathEnd{Verdict{Kind: "RACE", Label: "unsynchronised access to a " + what + ": " + o.fn + " / " + fn, Func: fn}})
+		pos := ""
+		if th.top != nil {
+			pos = in.stackString()
+		}
+		panic(pathEnd{Verdict{Kind: "RACE", Label: "unsynchronised access to a " + what + ": " + o.fn + " / " + fn, Func: fn, Pos: pos}})
 	}
 	// one record per (thread, kind): the latest access subsumes the earlier ones of the same thread
 	for i := range recs {
